@@ -17,7 +17,8 @@ RULE = (
     "Metamorphic pairs differing in exactly one unit's counts: a below-threshold unit (pev unchanged, so it stays "
     "below), a unit- or state-blocklisted unit, a zero-baseline unit, or an unexpected unit; replacement counts from "
     "{0, x0.1, x40, +1}; three estimators; outlier models on (with >20 reporting units) and off; with/without "
-    "features and fixed effects. Oracle on canonicalised tables: every other unit row bit-identical (incl. category); "
+    "features and fixed effects; a quarter of the pairs perturb a unit of a blocklisted STATE with outlier models on, a "
+    "sixth a below-threshold unit of a high-turnout bootstrap election (x40). Oracle on canonicalised tables: every other unit row bit-identical (incl. category); "
     "every aggregate row of a group not containing the unit bit-identical; in groups containing it `reporting` is "
     "unchanged and, for vote counts, pred changes exactly by the change of the unit's own pred (nonparametric: lower/"
     "upper likewise). Historical clause: get_historical_evaluation driven offline from a temp cwd, run twice with the "
